@@ -339,8 +339,12 @@ def m7(ctx, rep):
         t = vt.show(a.get('target')).replace(' ', '')
         if not t.endswith('.type_name') or 'import_types' not in t:
             continue
-        v = vt.show(a.get('value')).replace(' ', '')
-        rew.append(('serde_renamed' in v or 'collect_serde_renames' in v) and '.type_name' in v and '.base_crate' in v)
+        # the new name is looked up in the rename table by the import's own type name and then by the crate it names — read
+        # from the value tree (the look-up may sit in a helper or behind a `match`/`if let` on its result)
+        nodes = [x for x in vt.walk(a.get('value') or {})]
+        gets = [vt.show(vt.strip(x['args'][0])).replace(' ', '') for x in nodes if x.get('k') == 'call' and x.get('f') == 'get' and x.get('recv') is not None and len(x.get('args', [])) == 1]
+        table = any((x.get('k') == 'call' and str(x.get('f', '')).split('::')[-1] == 'collect_serde_renames') or (x.get('k') in ('var', 'atom') and 'serde_renamed' in (str(x.get('name') or ''), str(x.get('root') or ''))) for x in nodes)
+        rew.append(table and any(g.endswith('.type_name') for g in gets) and any(g.endswith('.base_crate') for g in gets))
     rep.check(bool(rew) and all(rew), 'M7', 'reconcile_aliases:import-names-renamed', 'import names rewritten through the rename table, per imported crate', "reconcile_aliases leaves the names in `import_types` as written in the `use` items: for a type carrying serde(rename) the reference is renamed but the import still asks for the Rust name, which the defining module does not export — the import is dropped (TypeScript, Kotlin) and the renamed reference is left unresolved", site)
     put = [a for a in ra['assigns'] if vt.show(a.get('target')).replace(' ', '').endswith('.import_types')]
     rep.check(bool(put), 'M7', 'reconcile_aliases:imports-restored', 'import list handed on to generation', 'reconcile_aliases takes the import list of a crate and never puts it back: no imports are generated at all', site)
